@@ -206,6 +206,14 @@ pub fn run(seed: u64, sessions: u64, f: &mut dyn Write) -> u64 {
                 faults.push(json!({"kind": kindf, "mode": mname, "ok": ok, "n_culprits": culprits.len(),
                     "only_victim": culprits.iter().all(|b| *b)}));
             }
+            // the same fault through the suite's own entry point, which tweaks the package itself
+            let r = tr::aggregate_with_tweak(&pkg, &sh, &pkp, root_ref);
+            let (ok, culprits) = match &r {
+                Ok(_) => (true, vec![]),
+                Err(e) => (false, e.culprits().iter().map(|c| c == &victim).collect::<Vec<bool>>()),
+            };
+            faults.push(json!({"kind": kindf, "mode": "aggregate_with_tweak", "ok": ok, "n_culprits": culprits.len(),
+                "only_victim": culprits.iter().all(|b| *b)}));
         }
         ev["faults"] = json!(faults);
         let _ = writeln!(f, "{}", ev);
